@@ -408,7 +408,7 @@ var C12 = &sim.Scenario{
 	Components: components,
 	Runs: func(th bool) int {
 		if th {
-			return 1500000
+			return 3000000
 		}
 		return 40000
 	},
